@@ -168,7 +168,10 @@ class PhaseScreen(object):
             chol_xx = chol[self.n_stencils:, self.n_stencils:]
             BBt = chol_xx.dot(chol_xx.T)
         except linalg.LinAlgError:
-            BBt = self.cov_mat_xx - self.A_mat.dot(self.cov_mat_zx)
+            # the joint covariance is numerically not positive definite: A
+            # and B are then meaningless (L0/pixel_scale of ~1e9: unstable
+            # recursions that overflow after a few hundred rows)
+            raise linalg.LinAlgError("Could not invert Covariance Matrix to for A and B Matrices. Try with a larger pixel scale or smaller L0")
 
         # Then do SVD to get B matrix
         u, W, ut = numpy.linalg.svd(BBt)
